@@ -276,19 +276,78 @@ def lockstep_chunk(args):
                     cb = [list(b) for b in cs.memory.banks]
                     if pb != cb or ps.memory.o7ffd != cs.memory.o7ffd:
                         why = ('banks/o7ffd', ps.memory.o7ffd, cs.memory.o7ffd)
-            # run(start, stop, interrupts) on fresh copies: stop at the end of the straight-line prefix
-            if why is None:
-                ps2, _ = mk(False)
-                cs2, _ = mk(True)
-                stop = (org + len(prog)) & 0xFFFF
-                # bounded by T-states: programs may loop; use a NOP sled region as stop guard
-                for sim in (ps2, cs2):
-                    pass
+            # (run(start, stop, interrupts=True) is compared separately: run_int_chunk)
         except Exception as ex:
             why = ('exception', repr(ex))
         if why:
             bad.append(({'cmio': cmio, 'machine': machine, 'k': k, 'org': org, 'prog': prog[:40], 'tracer': use_tracer,
                          'paged_without_tracer': paged_without_tracer}, why))
+            if len(bad) > 2:
+                break
+    return evals, bad
+
+
+def run_int_chunk(args):
+    """run(start, stop, interrupts=True): straight-line programs of EI / DI / NOP / INC / prefix chains started a few
+    T-states before a frame boundary, IM 2 with a short service routine; Python and C must end in the same state."""
+    paths, cmio, machine, n, seed = args
+    if not _MODS:
+        load(paths)
+    from skoolkit.simulator import Simulator
+    from skoolkit.cmiosimulator import CMIOSimulator
+    from skoolkit import simutils
+    pcls = CMIOSimulator if cmio else Simulator
+    bad = []
+    evals = 0
+    fd = simutils.FRAME_DURATIONS[machine == 128]
+    for k in range(n):
+        rnd = random.Random('%s/runint/%s/%s/%s' % (seed, cmio, machine, k))
+        org = rnd.choice((0x8000, 0x6000, 0xC000))
+        prog = []
+        for _ in range(rnd.randrange(3, 14)):
+            prog += rnd.choice(([0x00], [0x00], [0xFB], [0xF3], [0x3C], [0x04], [0xDD, 0x00], [0xFD, 0xDD, 0x23], [0xFB, 0x00], [0x3E, 0x07], [0xDD, 0x7E, 0x01], [0xED, 0x44]))
+        prog += [0x00] * 4
+        stop = org + len(prog) - 1
+        cells = {}
+        for i, b in enumerate(prog):
+            cells[org + i] = b
+        # IM 2: I = 0x90, vector at 0x90FF -> 0xA000: INC B ; [EI] ; RET
+        cells[0x90FF], cells[0x9100] = 0x00, 0xA0
+        isr = [0x04] + ([0xFB] if rnd.random() < 0.5 else []) + [0xC9]
+        for i, b in enumerate(isr):
+            cells[0xA000 + i] = b
+        regs = [rnd.randrange(256) for _ in range(30)]
+        regs[12] = 0xFF00
+        regs[13] = 0
+        regs[14] = 0x90
+        regs[24] = org
+        regs[25] = rnd.randrange(1, 4) * fd - rnd.randrange(0, 40)
+        regs[26] = rnd.randrange(2)
+        regs[27] = 2
+        regs[28] = 0
+        regs[29] = rnd.randrange(65536)
+        o7 = rnd.choice((0, 16, 1)) if machine == 128 else 0
+        why = None
+        try:
+            mem1, _ = make_memory(machine, cells, o7)
+            ps = simutils.from_memory(pcls, mem1)
+            ps.registers[:] = regs
+            mem2, _ = make_memory(machine, cells, o7)
+            cs = c_sim(cmio, machine, mem2, regs, None)
+            ps.run(org, stop, True)
+            cs.run(org, stop, True)
+            evals += 1
+            pr, cr = list(ps.registers), list(cs.registers)
+            if pr != cr:
+                why = ('registers', [(Z.REGNAMES[i] if i < len(Z.REGNAMES) else i, pr[i], cr[i]) for i in range(min(len(pr), len(cr))) if pr[i] != cr[i]][:6])
+            else:
+                pm, cm = flat_of(ps, machine), flat_of(cs, machine)
+                if pm != cm:
+                    why = ('memory', [(a, pm[a], cm[a]) for a in range(65536) if pm[a] != cm[a]][:4])
+        except Exception as ex:
+            why = ('exception', repr(ex))
+        if why:
+            bad.append(({'cmio': cmio, 'machine': machine, 'k': k, 'org': org, 'prog': prog, 'T0': regs[25], 'iff': regs[26], 'isr': isr, 'run_interrupts': True}, why))
             if len(bad) > 2:
                 break
     return evals, bad
@@ -376,6 +435,13 @@ def main():
                             continue
                         seenk.add(key)
                         out['violations'].append({'key': key, 'what': 'Python and C simulators diverge: %s' % (why,), 'case': case, 'diffs': why})
+                    res = p.map(run_int_chunk, [(paths, cmio, machine, 100 if tier == 'quick' else 2000, seed + j) for j in range(4)])
+                    ev = sum(r[0] for r in res)
+                    bad = [b for r in res for b in r[1]]
+                    out['items'].append({'function': 'run(start, stop, interrupts=True) Python vs C %s' % label, 'contract': 'same final registers and memory (interrupts offered after every instruction that ends inside the INT window with IFF set)',
+                                         'bound': '%d programs of EI/DI/NOP/prefix chains started up to 40 T-states before a frame boundary, IM 2' % ev, 'evaluations': ev})
+                    for case, why in bad[:2]:
+                        out['violations'].append({'key': 'C/%s/run-interrupts' % label, 'what': 'run(start, stop, interrupts=True) ends differently in Python and C: %s' % (why,), 'case': case, 'diffs': why})
                     res = p.map(interrupt_chunk, [(paths, cmio, machine, 200 if tier == 'quick' else 4000, seed + j) for j in range(4)])
                     ev = sum(r[0] for r in res)
                     bad = [b for r in res for b in r[1]]
